@@ -5,6 +5,7 @@ package main
 // C14 correspondence harness: the real endpointPickStrategy.Pop() of a real ClusterInfo.
 //   kind "rr":   stable ready set, N requests (MatchAttributes + Pop each), explicit subset or all;
 //   kind "hist": readiness changes, server-set changes (real ClusterInfo.Sync), forced cursor;
+//   kind "req":  the policy's traffic: requests through the real proxy handler chain (reqrig.go);
 //   kind "conc": concurrent pickers replayed under the cooperative scheduler (Pop instrumented:
 //                atomic.AddUint64 is a schedule point).
 
@@ -43,6 +44,7 @@ type c14Case struct {
 	Force   *c14Op  `json:"force"`
 	Ops     []c14Op `json:"ops"`
 	Phases  []c14Phase `json:"phases"`
+	Reqs    []reqOp    `json:"reqs"` // kind "req": requests of the subset policy through the real dispatcher
 }
 
 // one phase of a concurrent case: the readiness of the subset's endpoints is set first (sequentially),
@@ -168,6 +170,9 @@ func names(es []int) []string {
 func runC14(raw json.RawMessage) interface{} {
 	var c c14Case
 	must(json.Unmarshal(raw, &c))
+	if c.Kind == "req" {
+		return runReq(c)
+	}
 	ci, err := clusters.CreateClusterInfo(c14Cluster(c.Servers, c.Subset, c.Disabled, 0), nil, "", nil)
 	must(err)
 	defer ci.Stop()
